@@ -143,10 +143,14 @@ def build(u):
     with u.mod("result", uses="use super::error::Error;"):
         u.raw("pub type Result<T> = core::result::Result<T, Error>;")
     with u.mod("misc_helpers", uses="use crate::result::Result;\nuse serde::Serialize;\nuse std::path::{Path, PathBuf};"):
-        u.take_fn(mh, "search_files", external_body=True, ghost=DIR_RO, contract="""
+        # `kind`: WHICH files of the directory the ghost `Dir` stands for; each listing function lists one class only, so counting the
+        # files of a directory whose bound is about all files with the pattern-matching listing (or vice versa) fails the precondition
+        u.take_fn(mh, "search_files", external_body=True, ghost=DIR_RO + ", Ghost(kind): Ghost<DirKind>", contract="""
+        requires kind is FilesMatchingAPattern,  // @C19.search_files.lists_the_class_the_bound_is_about
         ensures r is Ok ==> is_listing(r->Ok_0@, *d) && r->Ok_0@.len() < usize::MAX,
 """)
-        u.take_fn(mh, "get_files", external_body=True, ghost=DIR, contract="""
+        u.take_fn(mh, "get_files", external_body=True, ghost=DIR + ", Ghost(kind): Ghost<DirKind>", contract="""
+        requires kind is AllRegularFiles,  // @C19.get_files.lists_the_class_the_bound_is_about
         ensures final(d).files == old(d).files,
                 r is Ok ==> is_listing(r->Ok_0@, *old(d)) && r->Ok_0@.len() < usize::MAX && final(d).io_failed == old(d).io_failed,
                 r is Err ==> final(d).io_failed,
@@ -293,27 +297,56 @@ def build(u):
     with u.mod("telemetry"):
         u.take_ext(tl, ["Event"], "vx_ext_event", uses="use serde_derive::{Deserialize, Serialize};")
         with u.mod("event_logger", uses="use crate::logger::logger_manager;\nuse crate::misc_helpers;\nuse crate::telemetry::Event;\nuse log::Level;\nuse std::path::PathBuf;"):
+            # E13: opaque stand-ins for the two process-wide statics of event_logger.rs, under their own names, so that an edit of the sliced
+            # text that consults them is judged by the contract (their answers are unconstrained) instead of failing to compile
+            txt = el.s(0, len(el.b))
+            if not re.search(r"\bstatic\s+EVENT_QUEUE\s*:", txt) or not re.search(r"\bstatic\s+SHUT_DOWN\s*:", txt):
+                raise Undecided("event_logger.rs: the statics EVENT_QUEUE / SHUT_DOWN are no longer declared")
+            u.raw("""pub struct VxEventQueue(());
+impl VxEventQueue {
+    #[verifier::external_body] pub fn is_closed(&self) -> bool { unimplemented!() }
+    #[verifier::external_body] pub fn is_empty(&self) -> bool { unimplemented!() }
+    #[verifier::external_body] pub fn is_full(&self) -> bool { unimplemented!() }
+    #[verifier::external_body] pub fn len(&self) -> usize { unimplemented!() }
+    #[verifier::external_body] pub fn close(&self) -> bool { unimplemented!() }
+}
+pub struct VxShutDown(());
+impl VxShutDown {
+    #[verifier::external_body] pub fn load(&self, order: std::sync::atomic::Ordering) -> bool { unimplemented!() }
+}
+#[verifier::external_body] pub const fn vx_mk_event_queue() -> VxEventQueue { VxEventQueue(()) }
+#[verifier::external_body] pub const fn vx_mk_shut_down() -> VxShutDown { VxShutDown(()) }
+pub exec static EVENT_QUEUE: VxEventQueue ensures true { vx_mk_event_queue() }
+pub exec static SHUT_DOWN: VxShutDown ensures true { vx_mk_shut_down() }""")
+            u.rule("E13", "event_logger.rs: statics EVENT_QUEUE (ConcurrentQueue<Event>) and SHUT_DOWN (Arc<AtomicBool>) declared as opaque stand-ins with unconstrained is_closed/is_empty/is_full/len/close and load")
             it = el.item("start", "fn")
             if len(it["loops"]) < 1 or it["loops"][0]["kind"] != "loop":
                 raise Undecided("event_logger::start: outer `loop` not found")
             lo_, hi_ = it["loops"][0]["body"]
-            a, _ = u.find_anchor(el, lo_, hi_, "match misc_helpers::get_files(&event_dir)", None, "start")
-            st = u.enclosing_stmt(it, a)
+            # the statement that lists the event directory: found from the index (whichever listing function an edit uses: judged by the
+            # stub's `kind` precondition, not by the extraction)
+            listers = sorted([c for c in it["calls"] if lo_ <= c["span"][0] and c["span"][1] <= hi_ and c["kind"] == "path"
+                              and c["callee"].replace(" ", "") in ("misc_helpers::get_files", "misc_helpers::search_files")], key=lambda c: c["span"][0])
+            if not listers:
+                raise Undecided("event_logger::start: no call of misc_helpers::get_files / search_files in the loop")
+            st = u.enclosing_stmt(it, listers[0]["span"][0])
+            lister_names = sorted(set(c["callee"].replace(" ", "") for c in listers))
             # census: the only thing in event_logger.rs that creates a file is the json_write_to_file call inside the slice
             writers = [(f["path"], c) for f in el.all_fns() if not f["path"].startswith("tests::") for c in f["calls"]
                        if c["kind"] == "path" and re.search(r"(json_write_to_file|File::create|fs::write|OpenOptions|fs::copy|fs::rename)", c["callee"])]
             if len(writers) != 1 or writers[0][0] != "start" or not (st[0] <= writers[0][1]["span"][0] < hi_):
                 raise Undecided("event_logger.rs: expected exactly one file-creating call, inside the guarded part of start's loop; found %s" % [(w[0], w[1]["callee"]) for w in writers])
             u.slice_fn(el, "start", "vx_slice_event_flush", st[0], hi_ - 1,
-                       "event_dir: PathBuf, max_event_file_count: usize, events: Vec<Event>, " + DIR,
+                       "event_dir: PathBuf, max_event_file_count: usize, events: Vec<Event>, " + DIR + ", Ghost(kind): Ghost<DirKind>",
                        replacements=[("continue;", "all", "return;")],
-                       ghost_calls=[("misc_helpers::get_files", None, "Tracked(d)"), ("misc_helpers::json_write_to_file", None, "Tracked(d)")],
+                       ghost_calls=[(nm, "all", "Tracked(d), Ghost(kind)") for nm in lister_names] + [("misc_helpers::json_write_to_file", None, "Tracked(d)")],
                        pre_body="broadcast use axiom_fmt_path_display;\nbroadcast use axiom_fmt_error;\nbroadcast use axiom_fmt_i128;\nbroadcast use lemma_listing_len;\n",
                        hints=[("let mut file_path", None, "before", "let ghost mid = *d;"),
                               ("match misc_helpers::json_write_to_file", None, "after", "proof { lemma_added_one_count(mid, *d); }")],
                        what="(loop body of start from the file-count check to the end; E5 drops: sleep, shutdown flag, queue draining)",
                        contract="""
         requires old(d).wf(),
+                 kind is AllRegularFiles,   // "the event directory never holds more FILES than its cap": the bound is about every regular file
         ensures final(d).wf(),
                 final(d).count() <= old(d).count() + 1,
                 !final(d).io_failed ==> (final(d).count() > old(d).count() ==> old(d).count() < max_event_file_count),  // @C19.event_logger.start.file_written_only_below_cap
@@ -341,8 +374,8 @@ def build(u):
                          ["AuthorizationMode", "ComputedAuthorizationItem", "ComputedAuthorizationRules", "AuthorizationRulesForLogging"],
                          [], ["AuthorizationRulesForLogging"])
             with u.impl_(ar, "AuthorizationRulesForLogging"):
-                u.take_fn(ar, "AuthorizationRulesForLogging::write_all", ret="", ghost=DIR,
-                          ghost_calls=[("misc_helpers::search_files", None, "Tracked(d)"),
+                u.take_fn(ar, "AuthorizationRulesForLogging::write_all", ret="", ghost=DIR + ", Ghost(kind): Ghost<DirKind>",
+                          ghost_calls=[("misc_helpers::search_files", None, "Tracked(d), Ghost(kind)"),
                                        ("misc_helpers::json_write_to_file", None, "Tracked(d)")],
                           e9=[("std::fs::remove_file(file)", None, "file: &PathBuf, " + DIR, "file, Tracked(d)", "std::io::Result<()>", REMOVE_FILE_CONTRACT % dict(p="*file"), dict(name="vx_e9_remove_dump"))],
                           pre_body="broadcast use axiom_fmt_path_display;\nbroadcast use axiom_fmt_error;\nbroadcast use axiom_fmt_io_error;",
@@ -357,6 +390,7 @@ def build(u):
                           contract="""
         requires old(d).wf(),
                  max_file_count >= 1,
+                 kind is FilesMatchingAPattern,   // "at most the configured number of authorization-rule dumps": the files named like a dump
         ensures final(d).wf(),
                 !final(d).io_failed ==> within(*final(d), max_file_count as int) || final(d).files == old(d).files,  // @C19.write_all.at_most_max_dumps_for_any_start
                 !final(d).io_failed ==> deleted_oldest_then_added_one(*old(d), *final(d)),  // @C19.write_all.oldest_removed_first
